@@ -570,3 +570,24 @@ package shwap
 //@ func (*RangeNamespaceDataIDV0).Equals
 //@   property C18 C10
 //@   ensures result <==> (rngid.RangeNamespaceDataID.EdsID.height == other.RangeNamespaceDataID.EdsID.height && rngid.RangeNamespaceDataID.From == other.RangeNamespaceDataID.From && rngid.RangeNamespaceDataID.To == other.RangeNamespaceDataID.To)
+
+// ---------------------------------------------------------------------------------------------
+// C18: the JSON form of a row. Decoding never panics, whatever the "side" string says, and yields one
+// of the three sides; the protobuf form maps every wire value to Left or Right.
+//@ func toRowSide
+//@   property C18
+//@   nopanic
+//@   ensures err == nil ==> result0 == Left || result0 == Right || result0 == Both
+
+//@ func (*Row).UnmarshalJSON
+//@   property C18
+//@   nopanic
+//@   untrusted data
+//@   requires r != nil
+//@   modifies r
+//@   ensures err == nil ==> r.side == Left || r.side == Right || r.side == Both
+
+//@ func sideFromProto
+//@   property C18
+//@   nopanic
+//@   ensures result == Left || result == Right
